@@ -463,7 +463,7 @@ theorem tot_aiRemove (fe fb : Id) (n0 pfe idx : Nat)
     (ih : ∀ (s : State) (counter : Nat) (lastNode : Id) (bm : H5V.Model.HtmlTB.Bookmark), InnerInv fe fb n0 pfe idx s bm →
       Tot (aaInner fe fb idx counter lastNode bm) s (InnerPost fe fb n0 pfe idx counter lastNode bm s))
     (s : State) (counter : Nat) (lastNode : Id) (bm : H5V.Model.HtmlTB.Bookmark) (node : Id)
-    (hnode : s.openElems[idx]? = some node) (hne : node ≠ fe) (hpfe : pfe < idx)
+    (_hnode : s.openElems[idx]? = some node) (_hne : node ≠ fe) (hpfe : pfe < idx)
     (hinv : InnerInv fe fb n0 pfe (idx + 1) s bm) :
     Tot (aiRemove fe fb idx counter lastNode bm) s (fun r s' calls => ∃ ids L,
       (∀ tc, TcOk s'.dom tc → edits calls = L.map (editCall tc)) ∧
